@@ -49,17 +49,17 @@ CHECKS = {
          "DESIGN.md §6 C08", "simx"),
  "C09": ("model_checking",
          "stateless deviation-bounded exhaustive exploration of a server-initiated channel close on the real threads",
-         "Three channels on three threads; the server closes channel n while it is idle, has a call in flight, has content half received, or has two consumers attached (the close is an environment action offered from the moment that state exists); the other channels keep making value-carrying calls; afterwards id n is re-opened. Every decision sequence with at most 2 (thorough 3) deviations. Oracle: ServerClosedChannel(n, code, text) on the in-flight/next call, later calls fail, consumers get exactly that terminal message, Channel.CloseOk(n) on the wire, other channels' replies intact, connection closes Ok, id reusable.",
+         "Three channels on three threads; the server closes channel n while it is idle, has a call in flight, has content half received, or has two consumers attached (the close is an environment action offered from the moment that state exists); the other channels keep making value-carrying calls; afterwards id n is re-opened. Every decision sequence with at most 2 (thorough 3) deviations. Oracle: ServerClosedChannel(n, code, text) on the in-flight/next call, later calls fail, consumers get exactly that terminal message, Channel.CloseOk(n) on the wire, other channels' replies intact, connection closes Ok, id reusable. A sweep over 7 reply codes x 3 texts at bound 0 (thorough 1). Second part: the ids scenario of C10, whose sequences include channels closed by the server (then dropped) and ids reopened explicitly or automatically afterwards.",
          "Bounds: 3 channels; quick tier covers 6 (n, state) pairs, thorough all 12.",
          "DESIGN.md §6 C09", "simx"),
  "C10": ("model_checking",
          "explicit-state breadth-first search of the complete reachable state graph of the real ChannelSlots (via probe) with a reference set, counter-boundary sequences in child processes, plus deviation-bounded exploration of open/close/call sequences on a live connection",
-         "Complete reachable state graph for channel_max 1..3 (thorough: 4) under open(Some(i)) for every i in 0..=max+1, open(None), close, close of a non-open id, failing slot construction and drain; every transition is judged against the statement and the open set compared with a reference set. The u16 boundary (channel_max 65535, counter at 65533..65535, all ids open) is driven by real calls in child processes with a wall limit so that a spinning allocator is a verdict. simx scenario ids: four sequences of open_channel(None/Some), calls and closes through the real Connection and I/O thread with channel_max 1, 2, 3 and 65535 (ids 0, max, max+1, reopened ids, exhaustion, reuse), results compared with a set-of-open-ids reference, within 1 (thorough 2) deviations; and the throttle scenario of C18 as a third part (a channel opened, used and closed while the other channels are throttled).",
-         "The complete state graph is that of ChannelSlots behind a probe (channel_max <= 4); the live-connection part runs four fixed sequences.",
+         "Complete reachable state graph for channel_max 1..3 (thorough: 4) under open(Some(i)) for every i in 0..=max+1, open(None), close, close of a non-open id, failing slot construction and drain; every transition is judged against the statement and the open set compared with a reference set. The u16 boundary (channel_max 65535, counter at 65533..65535, all ids open) is driven by real calls in child processes with a wall limit so that a spinning allocator is a verdict. simx scenario ids: seven sequences of open_channel(None/Some), calls, closes, drops, drops by a panicking owner and server-initiated closes through the real Connection and I/O thread with channel_max 1, 2, 3 and 65535 (ids 0, max, max+1, reopened ids, exhaustion, reuse), results compared with a set-of-open-ids reference, within 1 (thorough 2) deviations; and the throttle scenario of C18 as a third part (a channel opened, used and closed while the other channels are throttled).",
+         "The complete state graph is that of ChannelSlots behind a probe (channel_max <= 4); the live-connection part runs seven fixed sequences.",
          "DESIGN.md §6 C10", "seqx+simx"),
  "C11": ("model_checking",
          "explicit-state BFS over consumer lifecycle histories through the real dispatch (probe) with a reference model, plus deviation-bounded exploration with real Consumer objects",
-         "seqx: BFS to depth 7 (thorough 9; 8k / 31k states) over ConsumeOk, bodyless deliveries, client cancel request, CancelOk, server Cancel (nowait or not), server/client channel close, server/client connection close on tags {a,b} x channels {1,2} in every protocol-legal order; every consumer queue compared after every event (deliveries in order, exactly one terminal of the right kind, then disconnected; CancelOk written iff not nowait). simx: real Consumer objects - cancel twice, drop, forget + channel close, cancel with CancelOk withheld while deliveries keep arriving, server cancel then client cancel, connection dropped - with three deliveries pushed at any point, within 3 (thorough 4) deviations; scenario consumer-race: two consumers on channel 1 and one on channel 2, a cancel in flight while the server closes channel 1 or the connection at any point, mem_channel_bound 1 and 16, within 2 (thorough 3) deviations - every queue carries only its own tag's deliveries, then exactly one terminal naming the true cause.",
+         "seqx: BFS to depth 7 (thorough 9; 8k / 31k states) over ConsumeOk, bodyless deliveries, client cancel request, CancelOk, server Cancel (nowait or not), server/client channel close, server/client connection close on tags {a,b} x channels {1,2} in every protocol-legal order; every consumer queue compared after every event (deliveries in order, exactly one terminal of the right kind, then disconnected; CancelOk written iff not nowait). simx: real Consumer objects - cancel twice, drop, forget + channel close, cancel with CancelOk withheld while deliveries keep arriving, server cancel then client cancel, connection dropped - with three deliveries pushed at any point, within 3 (thorough 4) deviations; scenario consumer-race: two consumers on channel 1 and one on channel 2, a cancel in flight while the server closes channel 1 or the connection at any point, mem_channel_bound 1 and 16, within 2 (thorough 3) deviations - every queue carries only its own tag's deliveries, then exactly one terminal naming the true cause; variants in which the consumers are dropped (their cancel in flight when the server's close, provoked or not, or the client's own Connection::close arrives), in fine mode: the other channel and the connection are not affected.",
          "Two tags, two channels; deliveries are bodyless in the lifecycle search.",
          "DESIGN.md §6 C11", "seqx+simx"),
  "C12": ("exploration",
